@@ -63,6 +63,9 @@ def _product_loop(fi, target_attr=None, target_local=None):
 
 
 def run(prog, ctx):
+    # ------------------------------------------------------------------ D9: the Gauss rule stored for the basis integrals is exact for degree p
+    from ..gauss import check_sites
+    ctx.floor("C10.D9", check_sites(prog, ctx, "C10.D9", "Grid", "basis"), 3, "Gauss rules stored for basis integrals of degree p")
     # ------------------------------------------------------------------ D1
     init = prog.func(BF + "LagrangeBasis.__init__")
     call = prog.func(BF + "LagrangeBasis.__call__")
